@@ -196,7 +196,7 @@ theorem ipv4_no_leak (cfg : Cfg) (tb : Tables) (htb : TablesOk tb) (call : Call)
     have hmem : t ∈ ipKeys (chars l1) := by
       unfold ipKeys
       rw [List.mem_filter, mem_sortLenDesc, hl1]
-      exact ⟨ipv4_found pre t post ht hpre hpost, by simpa using hlb⟩
+      exact ⟨ipv4_found pre t post ht hpre hpost, by simpa [ignoreListV4] using hlb⟩
     obtain ⟨v, hv⟩ := resolve_mem hs hmem
     exact applyAll_clears steps l1 t v (resolve_stepsOk htb.ip hs) hv htne
 
@@ -484,5 +484,25 @@ theorem width_mode_witness : ¬ MacNoLeakWidth := by
     (by rfl) (by rfl)
   exact this (ins "10.230.230.1".toList ++ orig ",".toList) (orig "a6:68:99:76:75:86".toList)
     (orig ":54:00:aa:bb:cc".toList) (by decide) (allOrig_orig _) (by decide)
+
+/-! ### ignore lists are lists of WHOLE items -/
+
+/-- an address found on a line is substituted iff it is not a MEMBER of the ignore list (the test is on the whole
+token: an address that merely is a substring or a superstring of an ignored one is substituted) -/
+theorem ignored_iff_mem (s ip : Str) : ip ∈ ipKeys s ↔ ip ∈ findIPv4 s ∧ ip ∉ ignoreListV4 := by
+  simp [ipKeys, List.mem_filter, mem_sortLenDesc]
+
+/-- the list is exactly `127.0.0.1` -/
+theorem ignored_v4_iff_loopback (ip : Str) : ip ∈ ignoreListV4 ↔ ip = loopback := by
+  simp [ignoreListV4]
+
+/-- a found MAC is left alone iff the whole address, lower-cased, is a member of the two-element ignore list -/
+theorem mac_ignored_iff_mem (s m : Str) : m ∈ macKeys s ↔ m ∈ findMac s ∧ m.map lowerA ∉ macIgnoreList := by
+  simp [macKeys, macIgnored, List.mem_filter]
+
+/-- neighbours of the ignored items: 27.0.0.1 and 127.0.0.10 are substituted, 127.0.0.1 is not; 00:…:01 is, 00:…:00 is not -/
+example : ipKeys "27.0.0.1 127.0.0.1 127.0.0.10 7.0.0.1".toList = ["127.0.0.10".toList, "27.0.0.1".toList, "7.0.0.1".toList] ∧
+    macKeys "00:00:00:00:00:00 00:00:00:00:00:01 FF:ff:FF:ff:FF:ff fe:ff:ff:ff:ff:ff 00-00-00-00-00-00".toList =
+      ["00:00:00:00:00:01".toList, "fe:ff:ff:ff:ff:ff".toList, "00-00-00-00-00-00".toList] := by decide
 
 end IV.CleanLine
